@@ -31,6 +31,9 @@ func DistanceHaversine(p1, p2 orb.Point) float64 {
 	dLon2Sin := math.Sin(dLon / 2)
 	a := dLat2Sin*dLat2Sin + math.Cos(deg2rad(p2[1]))*math.Cos(deg2rad(p1[1]))*dLon2Sin*dLon2Sin
 
+	// rounding can push a marginally above 1 for (nearly) antipodal points
+	a = math.Min(a, 1)
+
 	return 2.0 * orb.EarthRadius * math.Atan2(math.Sqrt(a), math.Sqrt(1-a))
 }
 
